@@ -464,9 +464,14 @@ class Environment:
         if not self.first_invocation:
             return
 
+        # A value that was waiting for the option to appear (it came from the
+        # highest-priority source that gave one, e.g. the command line) has
+        # been applied when the option was added: the machine file must not
+        # overwrite it.
+        pending = set(self.coredata.optstore.pending_options)
         self.coredata.init_backend_options(backend_name)
         for k, v in self.options.items():
-            if self.coredata.optstore.is_backend_option(k):
+            if self.coredata.optstore.is_backend_option(k) and k not in pending:
                 self.coredata.optstore.set_option(k, v)
 
     def is_cross_build(self, when_building_for: MachineChoice = MachineChoice.HOST) -> bool:
